@@ -101,7 +101,7 @@ func r2LoopOf(info *types.Info, s ast.Stmt) *r2Loop {
 		switch {
 		case post.Tok == token.INC && (cond.Op == token.LSS || cond.Op == token.NEQ):
 			// i := s; i < len(A); i++
-			if a := r2IsLenOf(info, cond.Y); a != nil {
+			if a := r2LenLikeG(info, cond.Y); a != nil {
 				l.coll, l.dir, l.full = ast.Unparen(a), +1, true
 				if n, ok := r2ConstInt(info, init); !ok || n != 0 {
 					l.start = init
@@ -114,7 +114,7 @@ func r2LoopOf(info *types.Info, s ast.Stmt) *r2Loop {
 			// i := s; i <= len(A)-1; i++
 			if be, ok := vmStripConv(info, cond.Y).(*ast.BinaryExpr); ok && be.Op == token.SUB {
 				if n, ok := r2ConstInt(info, be.Y); ok && n == 1 {
-					if a := r2IsLenOf(info, be.X); a != nil {
+					if a := r2LenLikeG(info, be.X); a != nil {
 						l.coll, l.dir, l.full = ast.Unparen(a), +1, true
 						if n, ok := r2ConstInt(info, init); !ok || n != 0 {
 							l.start = init
@@ -125,7 +125,7 @@ func r2LoopOf(info *types.Info, s ast.Stmt) *r2Loop {
 		case post.Tok == token.DEC:
 			// i := len(A)-1; i >= 0 (or i > -1); i--
 			lo, okLo := r2ConstInt(info, cond.Y)
-			if a := r2IsLenOf(info, init); a != nil && okLo {
+			if a := r2LenLikeG(info, init); a != nil && okLo {
 				// i := len(A); i > 0 (or i >= 1); i--   (element index is i-1)
 				if (cond.Op == token.GTR && lo == 0) || (cond.Op == token.GEQ && lo == 1) {
 					l.coll, l.dir, l.full = ast.Unparen(a), -1, true
@@ -134,7 +134,7 @@ func r2LoopOf(info *types.Info, s ast.Stmt) *r2Loop {
 			}
 			if be, ok := init.(*ast.BinaryExpr); ok && be.Op == token.SUB && okLo {
 				if n, ok := r2ConstInt(info, be.Y); ok && n == 1 {
-					if a := r2IsLenOf(info, be.X); a != nil {
+					if a := r2LenLikeG(info, be.X); a != nil {
 						l.coll, l.dir, l.full = ast.Unparen(a), -1, true
 						first := lo
 						if cond.Op == token.GTR {
@@ -151,9 +151,49 @@ func r2LoopOf(info *types.Info, s ast.Stmt) *r2Loop {
 				}
 			}
 		}
+		r2PreferIndexedBase(info, l)
 		return l
 	}
 	return nil
+}
+
+// r2LoopCtx: the analysed tree (one per process); lets the loop classifier
+// look through expression-bodied length accessors.
+var r2LoopCtx *Ctx
+
+func r2LenLikeG(info *types.Info, e ast.Expr) ast.Expr {
+	return r2LenLike(r2LoopCtx, info, e)
+}
+
+// r2PreferIndexedBase: when the loop bound came from an accessor (`i < node.ArgCount()`), the
+// collection is the expression the body indexes with the loop variable (`args[i]`).
+func r2PreferIndexedBase(info *types.Info, l *r2Loop) {
+	if l.coll == nil || l.idx == nil || l.body == nil {
+		return
+	}
+	if _, ok := info.Types[l.coll]; ok && r2ExprInBody(l) {
+		return
+	}
+	var base ast.Expr
+	n := 0
+	ast.Inspect(l.body, func(m ast.Node) bool {
+		if ix, ok := m.(*ast.IndexExpr); ok && vmObjOf(info, ix.Index) == l.idx {
+			if base == nil || exprStr(base) != exprStr(ix.X) {
+				n++
+			}
+			base = ix.X
+		}
+		return true
+	})
+	if n == 1 {
+		l.coll = ast.Unparen(base)
+	}
+}
+
+// r2ExprInBody: the collection expression is written in the loop statement itself (not taken
+// from another function's body).
+func r2ExprInBody(l *r2Loop) bool {
+	return l.coll.Pos() >= l.stmt.Pos() && l.coll.End() <= l.stmt.End()
 }
 
 func r2DirStr(d int) string {
@@ -351,4 +391,277 @@ func r2Parents(root ast.Node) map[ast.Node]ast.Node {
 		return true
 	})
 	return par
+}
+
+// ---------------------------------------------------------------- emission sites
+
+// r2Emission: one instruction appended by a call — of the insert primitive, of
+// a forwarding wrapper (a function that passes its Instruction parameter on to
+// the primitive: `add(instr, span)`, `insert → appendTo(fn, instr, span)`), or
+// of a single-instruction emission helper (`emitNamed(op, name, span)`,
+// `emitDrop(c, span)`), with the helper's parameters replaced by the
+// arguments of the call.
+type r2Emission struct {
+	op     *types.Const // nil when the opcode is not a constant at this site
+	opExpr ast.Expr     // the opcode expression as seen at the call (after substitution)
+	args   []ast.Expr   // the instruction's operands (without the opcode), after substitution
+	ctor   *ast.CallExpr
+	call   *ast.CallExpr
+}
+
+type r2EmitIndex struct {
+	roles   *vmCompilerRoles
+	forward map[*types.Func]int // function → index of the Instruction parameter it hands to the primitive
+	instrT  types.Type
+	single  map[*types.Func]*r2SingleEmit
+	busy    map[*types.Func]bool
+}
+
+type r2SingleEmit struct {
+	fn     *vmFn
+	em     *r2Emission // in the helper's own terms
+	params []types.Object
+}
+
+var r2EmitIndexCache = map[*Ctx]*r2EmitIndex{}
+
+func r2EmitIdx(c *Ctx) *r2EmitIndex {
+	if x := r2EmitIndexCache[c]; x != nil {
+		return x
+	}
+	roles := vmCompRoles(c)
+	x := &r2EmitIndex{roles: roles, forward: map[*types.Func]int{}, single: map[*types.Func]*r2SingleEmit{}, busy: map[*types.Func]bool{}}
+	if o := c.Pkg("homescript/compiler").Types.Scope().Lookup("Instruction"); o != nil {
+		x.instrT = o.Type()
+	} else {
+		fatalf("anchor unresolved: compiler.Instruction")
+	}
+	// the primitive's instruction parameter
+	sig := roles.insert.Type().(*types.Signature)
+	for i := 0; i < sig.Params().Len(); i++ {
+		if types.Identical(sig.Params().At(i).Type(), x.instrT) {
+			x.forward[roles.insert] = i
+		}
+	}
+	// forwarding wrappers (fixpoint)
+	for changed := true; changed; {
+		changed = false
+		for _, fn := range roles.fns {
+			obj, _ := fn.info.Defs[fn.fd.Name].(*types.Func)
+			if obj == nil {
+				continue
+			}
+			if _, done := x.forward[obj]; done {
+				continue
+			}
+			params := vmParamObjs(fn)
+			ast.Inspect(fn.fd.Body, func(n ast.Node) bool {
+				call, ok := n.(*ast.CallExpr)
+				if !ok {
+					return true
+				}
+				g := CalleeOf(fn.info, call)
+				idx, isFwd := x.forward[g]
+				if g == nil || !isFwd || idx >= len(call.Args) {
+					return true
+				}
+				ao := vmObjOf(fn.info, call.Args[idx])
+				for pi, po := range params {
+					if po != nil && po == ao && types.Identical(po.Type(), x.instrT) {
+						if _, done := x.forward[obj]; !done {
+							x.forward[obj] = pi
+							changed = true
+						}
+					}
+				}
+				return true
+			})
+		}
+	}
+	r2EmitIndexCache[c] = x
+	return x
+}
+
+// isForward: g appends the instruction it is given (primitive or forwarding wrapper).
+func (x *r2EmitIndex) isForward(g *types.Func) bool {
+	if g == nil {
+		return false
+	}
+	_, ok := x.forward[g]
+	return ok
+}
+
+// instrExpr resolves an instruction expression: a constructor call, or a local assigned exactly once from one.
+func (x *r2EmitIndex) instrExpr(fn *vmFn, e ast.Expr) *ast.CallExpr {
+	e = ast.Unparen(e)
+	if call, ok := e.(*ast.CallExpr); ok {
+		return call
+	}
+	if o := vmObjOf(fn.info, e); o != nil {
+		if def := vmSingleDef(fn, o); def != nil {
+			if call, ok := ast.Unparen(def).(*ast.CallExpr); ok {
+				return call
+			}
+		}
+	}
+	return nil
+}
+
+// singleOf: g is a helper whose body (simple statements only) emits exactly one instruction.
+func (x *r2EmitIndex) singleOf(g *types.Func) *r2SingleEmit {
+	if s, ok := x.single[g]; ok {
+		return s
+	}
+	x.single[g] = nil
+	fn := x.roles.byObj[g]
+	if fn == nil || x.busy[g] || x.isForward(g) || !x.roles.emitters[g] {
+		return nil
+	}
+	x.busy[g] = true
+	defer delete(x.busy, g)
+	var em *r2Emission
+	n := 0
+	for _, s := range fn.fd.Body.List {
+		switch y := s.(type) {
+		case *ast.ExprStmt:
+			if call, ok := ast.Unparen(y.X).(*ast.CallExpr); ok {
+				if h := CalleeOf(fn.info, call); h != nil && x.roles.emitters[h] {
+					e, ok := x.of(fn, call)
+					if !ok {
+						return nil
+					}
+					em = e
+					n++
+				}
+			}
+		case *ast.AssignStmt, *ast.DeclStmt, *ast.ReturnStmt:
+			// simple statements; must not emit themselves
+			emits := false
+			ast.Inspect(y, func(m ast.Node) bool {
+				if call, ok := m.(*ast.CallExpr); ok {
+					if h := CalleeOf(fn.info, call); h != nil && x.roles.emitters[h] {
+						if rs, isRet := s.(*ast.ReturnStmt); isRet && len(rs.Results) == 1 && ast.Unparen(rs.Results[0]) == ast.Expr(call) {
+							if e, ok := x.of(fn, call); ok {
+								em = e
+								n++
+								return true
+							}
+						}
+						emits = true
+					}
+				}
+				return true
+			})
+			if emits {
+				return nil
+			}
+		default:
+			return nil
+		}
+	}
+	if n != 1 || em == nil {
+		return nil
+	}
+	s := &r2SingleEmit{fn: fn, em: em, params: vmParamObjs(fn)}
+	x.single[g] = s
+	return s
+}
+
+// of: the instruction a call appends (see r2Emission).
+func (x *r2EmitIndex) of(fn *vmFn, call *ast.CallExpr) (*r2Emission, bool) {
+	g := CalleeOf(fn.info, call)
+	if g == nil {
+		return nil, false
+	}
+	if idx, ok := x.forward[g]; ok {
+		if idx >= len(call.Args) {
+			return nil, false
+		}
+		ctor := x.instrExpr(fn, call.Args[idx])
+		if ctor == nil {
+			return &r2Emission{call: call}, true
+		}
+		em := &r2Emission{call: call, ctor: ctor}
+		for _, a := range ctor.Args {
+			if types.Identical(fn.info.TypeOf(a), x.roles.opType) {
+				em.opExpr = a
+				em.op = ConstOf(fn.info, a)
+				continue
+			}
+			em.args = append(em.args, a)
+		}
+		if em.opExpr == nil {
+			// constructor with a fixed opcode
+			if cfn := x.roles.byObj[CalleeOf(fn.info, ctor)]; cfn != nil {
+				ast.Inspect(cfn.fd.Body, func(n ast.Node) bool {
+					if kv, isKV := n.(*ast.KeyValueExpr); isKV {
+						if k := ConstOf(cfn.info, kv.Value); k != nil && types.Identical(k.Type(), x.roles.opType) {
+							em.op = k
+						}
+					}
+					return true
+				})
+			}
+		}
+		return em, true
+	}
+	s := x.singleOf(g)
+	if s == nil {
+		return nil, false
+	}
+	// substitute the helper's parameters
+	subst := func(e ast.Expr) ast.Expr {
+		if e == nil {
+			return nil
+		}
+		if o := vmObjOf(s.fn.info, e); o != nil {
+			for i, po := range s.params {
+				if po == o && i < len(call.Args) {
+					return call.Args[i]
+				}
+			}
+		}
+		return e
+	}
+	em := &r2Emission{call: call, ctor: s.em.ctor, op: s.em.op}
+	em.opExpr = subst(s.em.opExpr)
+	if em.op == nil && em.opExpr != nil {
+		em.op = ConstOf(fn.info, em.opExpr)
+	}
+	for _, a := range s.em.args {
+		em.args = append(em.args, subst(a))
+	}
+	return em, true
+}
+
+// r2LenLike: e denotes the length of a collection: len(A), or a call of an
+// expression-bodied accessor that returns one (`node.ArgCount()`); returns A.
+func r2LenLike(c *Ctx, info *types.Info, e ast.Expr) ast.Expr {
+	if a := r2IsLenOf(info, e); a != nil {
+		return a
+	}
+	call, ok := vmStripConv(info, e).(*ast.CallExpr)
+	if !ok || c == nil {
+		return nil
+	}
+	if callee := vmDeclIndex(c).of(CalleeOf(info, call)); callee != nil && len(call.Args) == 0 {
+		if body := vmExprBodied(callee); body != nil {
+			return r2IsLenOf(callee.info, body)
+		}
+	}
+	return nil
+}
+
+// r2FieldOrAlias: the struct field an expression denotes, also through a local that is
+// assigned exactly once from the field (`scopes := self.varScopes`).
+func r2FieldOrAlias(fn *vmFn, e ast.Expr) *types.Var {
+	if f := vmFieldOf(fn.info, e); f != nil {
+		return f
+	}
+	if o := vmObjOf(fn.info, e); o != nil {
+		if def := vmSingleDef(fn, o); def != nil {
+			return vmFieldOf(fn.info, vmStripConv(fn.info, def))
+		}
+	}
+	return nil
 }
